@@ -118,9 +118,10 @@ def run(ck, prog, tier, load):
     ck.ob("C09-d.protected-set", "DEFAULT_QUOTER", {"/", "%", "+"} <= prot, None, None, "the URL quoter protects '/', '%%' and '+' (literals: %s): decoding never creates a segment boundary" % sorted(strs))
     parse = prog.one(r"^actix_router::resource::ResourceDef::parse$")
     n_p = 0
+    re_locals = set(user_locals(parse, r"^alloc::string::String$"))
     for bb, t in parse.calls(r"alloc::string::String::push_str$"):
         bl = base_local(parse, t["args"][0])
-        if bl is None or parse.lname(bl) != "re":
+        if bl is None or bl not in re_locals:
             continue
         n_p += 1
         arg = parse.op_expr(t["args"][1])
@@ -158,3 +159,17 @@ def run(ck, prog, tier, load):
         pass
     adders = prog.callers(r"^actix_web::service::ServiceRequest::add_data_container$")
     ck.anchor("C09-e", len(adders), 2, "callers of add_data_container (scope and resource middleware)")
+    # ---- (f) a default service survives configure() -----------------------------------------------
+    # `scope.default_service(D).configure(f)`: the builder's default may be replaced only by a default that the
+    # configuration closure actually supplied; assigning the (possibly empty) option drops D, so unmatched requests fall
+    # through to an outer default
+    cfgs = prog.find(r"^actix_web::(scope::Scope|app::App)(<.*>)?::configure$")
+    ck.anchor("C09-f", len(cfgs), 2, "App::configure and Scope::configure")
+    for b in cfgs:
+        ws = [(bb, s) for bb, i, s in b.assigns() if any(isinstance(x, str) and x.endswith(".default") for x in s["p"][1:]) and len(s["p"]) == 2]
+        for bb, s in ws:
+            e = b.rv_expr(s["rv"], 6)
+            some = is_agg(e, r"Option::Some$")
+            guarded = any(c[0] == "discr" and e_has_field(c, r"ServiceConfig\.default$") and lab == "Some" for c, lab, a in b.guards(bb))
+            ck.ob("C09-f.configure-keeps-default", b.npath.split("::")[-2] + "::configure", some and guarded, b, bb,
+                  "the builder's default service is overwritten only with Some(default) taken on the Some edge of the configuration's default (never with an empty option)")
